@@ -18,9 +18,29 @@ fn interesting_angle(rng: &mut Rng) -> f64 {
     }
 }
 
+/// sort_by_closeness on lists whose costs are close together (differences from 1e-6 to a few 1e-3) and on ordinary lists
+fn sort_record(rng: &mut Rng, i: u64) {
+    let mut r = random_robot(rng, i, false, None);
+    if rng.bool() { r.cons = Some(random_constraints(rng, None)); }
+    let k = r.solver();
+    let prev: Joints = std::array::from_fn(|_| dy(rng.range(-3.0, 3.0), 16));
+    let n = 2 + rng.below(7) as usize;
+    let base: Joints = std::array::from_fn(|j| dy(prev[j] + rng.range(-1.5, 1.5), 16));
+    let mut sols: Vec<Joints> = (0..n).map(|_| {
+        let mut s = base;
+        // move one or two coordinates by a small amount: costs differ by the same order
+        let scale = [1e-6, 1e-5, 1e-4, 3e-4, 1e-3, 0.5][rng.below(6) as usize];
+        for _ in 0..(1 + rng.below(2)) { let j = rng.below(6) as usize; s[j] = dy(s[j] + rng.range(-scale, scale), 30); }
+        s }).collect();
+    let input = sols.clone();
+    H::sort_by_closeness(&k, &mut sols, &prev);
+    println!("{}", Obj::new().s("prop", "KIN").s("fn", "sort_by_closeness").raw("robot", &r.json()).fs("args", &prev).raw("sols", &sols_json(&input)).raw("out", &sols_json(&sols)).done());
+}
+
 pub fn fn_records(rng: &mut Rng, n: u64) {
     for i in 0..n {
-        match i % 5 {
+        match i % 6 {
+            5 => sort_record(rng, i),
             0 => { let (a, b) = (interesting_angle(rng), if rng.bool() { interesting_angle(rng) } else { rng.range(-6.5, 6.5) });
                    println!("{}", Obj::new().s("prop", "KIN").s("fn", "normalize_near").fs("args", &[a, b]).f("out", H::normalize_near(a, b)).done()); }
             1 => { let a = interesting_angle(rng);
@@ -36,6 +56,27 @@ pub fn fn_records(rng: &mut Rng, n: u64) {
                    println!("{}", Obj::new().s("prop", "KIN").s("fn", "kinematic_singularity").raw("robot", &r.json()).fs("args", &j).b("out", out).done()); }
         }
     }
+}
+
+/// Independent re-statement (model angles) of the J4/J6 redistribution on a wrist-singular kernel answer: the candidate the
+/// solver is expected to examine.  Its FK verdict is recorded next to the traced ones, so that the model finds a verdict for ITS
+/// candidate even when the implementation examined a different one.
+fn ref_candidate(r: &Robot, previous: &Joints, now: &Joints) -> Joints {
+    let tp = 2.0 * PI;
+    let m = |j: &Joints, i: usize| j[i] * r.p.sign_corrections[i] as f64 - r.p.offsets[i];
+    let fm = |q: f64, i: usize| (q + r.p.offsets[i]) * r.p.sign_corrections[i] as f64;
+    let close0 = |a: f64| { let mut d = a.abs() % tp; if d > PI { d = tp - d; } d < H::SINGULARITY_ANGLE_THR };
+    let wrap = |mut a: f64| { while a > PI { a -= tp; } while a < -PI { a += tp; } a };
+    let (p4, p6, n4, n6) = (m(previous, 3), m(previous, 5), m(now, 3), m(now, 5));
+    let zero5 = close0(m(now, 4));
+    let (s, s_n) = if zero5 { (p4 + p6, n4 + n6) } else { (p4 - p6, n4 - n6) };
+    let now5 = if zero5 { now[4] } else { H::normalize_near(now[4], previous[4]) };
+    let jd = wrap(s_n - s) / 2.0;
+    [now[0], now[1], now[2], fm(p4 + jd, 3), now5, fm(p6 + jd, 5)]
+}
+fn ref_singular(r: &Robot, j: &Joints) -> bool {
+    let tp = 2.0 * PI; let a = (j[4] * r.p.sign_corrections[4] as f64 - r.p.offsets[4]).rem_euclid(tp); let t = H::SINGULARITY_ANGLE_THR;
+    a < t || tp - a < t || (PI - a).abs() < t
 }
 
 pub fn entry_record(rng: &mut Rng, idx: u64) {
@@ -54,6 +95,8 @@ pub fn entry_record(rng: &mut Rng, idx: u64) {
         4 => std::array::from_fn(|i| o[i] + 2.0 * PI * rng.int(-1, 1) as f64),
         _ => sentinel(),
     };
+    // CONSTRAINT_CENTERED matters with constraints: give it a fair share there
+    if r.cons.is_some() && rng.below(3) == 0 { prev = sentinel(); }
     // perturb J4/J6 of prev on singular poses (the interesting continuation case)
     if matches!(kind, PoseKind::Sing0 | PoseKind::SingPi) && !prev[0].is_nan() && rng.bool() {
         let d = dy(rng.range(-1.0, 1.0), 16);
@@ -78,6 +121,21 @@ pub fn entry_record(rng: &mut Rng, idx: u64) {
         o = o.raw("kernel", &format!("[{}]", ks.join(",")));
     }
     let _ = H::take_trace();
+    // verdicts of the reference candidates (see ref_candidate)
+    let mut cands = cands;
+    if !five && entry == 1 {
+        let previous: Joints = if prev[0].is_nan() { k.constraints().as_ref().map(|c| c.centers).unwrap_or([0.0; 6]) } else { prev };
+        for d in 0..4 {
+            if let Some(nowk) = H::inverse_intern(&bare, &shifted(&pose, d)).iter().find(|s| ref_singular(&r, s)) {
+                let c = ref_candidate(&r, &previous, nowk);
+                if c.iter().all(|x| x.is_finite()) {
+                    let v = H::compare_poses(&pose, &bare.forward(&c), H::DISTANCE_TOLERANCE, H::ANGULAR_TOLERANCE);
+                    cands.push((c, v));
+                }
+            }
+        }
+        let _ = H::take_trace();
+    }
     let cj: Vec<String> = cands.iter().map(|(c, v)| format!("{{\"c\":{},\"ok\":{}}}", fxs(c), v)).collect();
     println!("{}", o.raw("cands", &format!("[{}]", cj.join(","))).raw("out", &sols_json(&out)).done());
 }
